@@ -25,13 +25,17 @@ Import ListNotations.
 Inductive op :=
 | OpNone                       (* thread does nothing *)
 | OpMeter (k : nat)            (* otel.GetMeterProvider().Meter(key k) *)
-| OpInst (k : nat)             (* any instrument constructor on global meter k *)
+| OpInst (k : nat)             (* any instrument constructor on global meter k (a new identity) *)
+| OpInstAgain (k j : nat)      (* the same constructor call again: the identity (name, kind, unit, description)
+                                  of the instrument that thread j obtained from meter k *)
 | OpRecord (i : nat)           (* Add / Record on instrument handle i *)
 | OpRegister (k : nat)         (* RegisterCallback on global meter k *)
 | OpUnregister (r : nat)       (* registration r .Unregister() *)
 | OpInstall.                   (* otel.SetMeterProvider(sdk) *)
 
-Inductive ist_t := INone | IGlobal (k : nat) (delegated : bool) | IDirect.
+(** A handle: none yet / a placeholder of global meter k / an SDK instrument / the SAME
+    placeholder as handle j (meter.instruments caches by identity). *)
+Inductive ist_t := INone | IGlobal (k : nat) (delegated : bool) | IDirect | IAlias (j : nat).
 Inductive ureg := RNone | RLocal (k : nat) | RSdk | RNil | RDirect | RDirectNil.
 Inductive once_t := ONew | ORun (t : nat) | ODone.
 
@@ -39,6 +43,7 @@ Inductive pc :=
 | Start | Done
 | MWait (k : nat) | MHold (k : nat)
 | CWait (k : nat) | CHold (k : nat)
+| AWait (k j : nat) | AHold (k j : nat)
 | RRec (i : nat)
 | GWait (k : nat) | GHold (k : nat)
 | UWait (r : nat) | UHold (r : nat) | UWaitM (r k : nat) | UInM (r k : nat) | UFin (r : nat)
@@ -87,11 +92,13 @@ Fixpoint remove_nat (x : nat) (l : list nat) : list nat :=
 
 (** instrument.setDelegate: store the delegate (only global instruments have one to store). *)
 Definition deleg (x : ist_t) : ist_t :=
-  match x with IGlobal k _ => IGlobal k true | INone => INone | IDirect => IDirect end.
+  match x with IGlobal k _ => IGlobal k true | INone => INone | IDirect => IDirect | IAlias j => IAlias j end.
 Definition delegate_inst (i : nat) (s : st) : st := set_ist i (deleg (ist s i)) s.
 
+Definition fwd_obj (x : ist_t) : bool :=
+  match x with IGlobal _ true | IDirect => true | _ => false end.
 Definition forwards (s : st) (i : nat) : bool :=
-  match ist s i with IGlobal _ true | IDirect => true | _ => false end.
+  match ist s i with IAlias j => fwd_obj (ist s j) | x => fwd_obj x end.
 
 (** First step of a call: argument handles that do not exist yet make the call a
     no-op thread (the user program has no such handle to call on); otherwise the
@@ -101,6 +108,7 @@ Definition start (prog : nat -> op) (s : st) (t : nat) : option st :=
   | OpNone => None
   | OpMeter k => Some (set_pc t (MWait k) s)
   | OpInst k => Some (set_pc t (if mcreated s k then CWait k else Done) s)
+  | OpInstAgain k j => Some (set_pc t (if mcreated s k then AWait k j else Done) s)
   | OpRecord i =>
       match ist s i with
       | INone => Some (set_pc t Done s)
@@ -132,6 +140,17 @@ Definition step (old : bool) (prog : nat -> op) (s : st) (t : nat) : option st :
       let s1 := if mdel s k then set_ist t IDirect s
                 else set_imap k (imap s k ++ [t]) (set_ist t (IGlobal k false) s) in
       Some (set_pc t Done (emit (EInstRet (N.of_nat t)) (set_mlock k None s1)))
+  (* the same constructor again: the cached placeholder is handed out again (no new map entry) *)
+  | AWait k j => match mlock s k with None => Some (set_pc t (AHold k j) (set_mlock k (Some t) s)) | Some _ => None end
+  | AHold k j =>
+      if mdel s k then Some (set_pc t Done (emit (EInstRet (N.of_nat t)) (set_mlock k None (set_ist t IDirect s))))
+      else match ist s j with
+           | IGlobal k' _ =>
+               if Nat.eqb k' k
+               then Some (set_pc t Done (emit (EInstRet (N.of_nat t)) (set_mlock k None (set_ist t (IAlias j) s))))
+               else Some (set_pc t Done (set_mlock k None s))
+           | _ => Some (set_pc t Done (set_mlock k None s))
+           end
   (* instrument.Add / Record: one atomic load of the delegate *)
   | RRec i =>
       let s1 := if forwards s i then emit (ESdkRec (N.of_nat t)) s else s in
